@@ -1,5 +1,6 @@
 import Mochi.Model.Broker
 import Mochi.Lemmas.BrokerInv
+import Mochi.Lemmas.BrokerQuota
 /-!
 # C11 — Receive Maximum flow control holds in both directions without leaking quota
 
@@ -62,5 +63,130 @@ theorem C11_QuotaOK_all_histories (caps : Caps) (ops : List Op) (h : OpsFresh (i
 example : OpsFresh (init {}) demoHistory := by decide
 example : ((getObj (run (init {}) demoHistory) 1).sendQuota, (getObj (run (init {}) demoHistory) 1).maxSend,
            (getObj (run (init {}) demoHistory) 1).inflight.length) = (0, 1, 1) := by decide
+
+end Mochi.Broker
+
+/-! ## Quotas as accounting invariants over histories
+
+`RecvAcc c : recvQuota + inboundOpen c = maxRecv` where `inboundOpen` counts the in-flight records of the inbound
+direction (type 5: PUBREC awaiting PUBREL; type 4: a PUBACK record whose write failed).
+`fc11OpsOK P (init caps) ops` (decidable, `Mochi/Lemmas/BrokerQuota.lean`): every op is fresh, the stored messages
+are PUBLISH packets with non-negative time stamps (`Fc11Store`, true in every reachable state), and `fc11OpOK`:
+* `recv` / `recvCut` / `inlinePublish`: the handler's own update of the ACTING client's records and quotas keeps the
+  accounting (`fc11PkOK`, one implication per handler branch; trivially true for SUBSCRIBE, UNSUBSCRIBE, PINGREQ,
+  DISCONNECT);
+* `connect` / `connectHold` / `release` of a parked CONNECT: the client id is not in the Clients map (no take-over,
+  no resumption);
+* `tick "inflight"`: the tick drops no record the accounting depends on.
+Everything else — deliveries to every other client, deferral, `nextImmediate`, wills, session clean-up, expiry of
+sessions, retained housekeeping, drops, parked handlers — is covered unconditionally, for all 12 op kinds. -/
+namespace Mochi.Broker
+open Mochi.Topics
+
+/-- **C11, receive side (all 12 op kinds, all histories of the class)**: every registered client has
+    `recvQuota + (open inbound records) = maxRecv` -/
+theorem C11_recv_quota_accounting_partial (caps : Caps) (ops : List Op)
+    (h : fc11OpsOK fc11RecvP (init caps) ops) :
+    ∀ id k, (id, k) ∈ (run (init caps) ops).clients →
+      (getObj (run (init caps) ops) k).recvQuota + inboundOpen (getObj (run (init caps) ops) k)
+        = (getObj (run (init caps) ops) k).maxRecv :=
+  fun id k hm => (fc11_run fc11RecvP_laws _ ops (WF_init caps) (fc11_init fc11RecvP_laws caps) h k ⟨id, hm⟩).1
+
+/-- the step form: one op of the class keeps the accounting of every registered client -/
+theorem C11_recv_quota_accounting_step (s : Server) (op : Op) (hwf : WF s) (hf : OpFresh s op) (hst : Fc11Store s)
+    (hg : fc11OpOK fc11RecvP s op) (h : Fc11Inv fc11RecvP s) : Fc11Inv fc11RecvP (step s op).1 :=
+  fc11_step fc11RecvP_laws s op hwf hf hst hg h
+
+/-! ### 0x93 only at the limit -/
+
+def fc11Not93 (r : HRes) : Prop := r.2.2 ≠ some 0x93
+
+theorem fc11_ite_code {p : Prop} [Decidable p] {a b : HRes}
+    (ha : p → fc11Not93 a) (hb : ¬ p → fc11Not93 b) : fc11Not93 (if p then a else b) := by
+  by_cases h : p
+  · rw [if_pos h]; exact ha h
+  · rw [if_neg h]; exact hb h
+
+theorem fc11_ackRes_code (s : Server) (i t id rc : Nat) : fc11Not93 (ackRes s i t id rc) := by
+  unfold fc11Not93
+  rcases ackRes_cases s i t id rc with h | h <;> rw [h] <;> intro e <;> cases e
+
+/-- `processPublish` returns 0x93 only on the exhausted-quota branch -/
+theorem fc11_processPublish_0x93 (s : Server) (i : Nat) (qos : Nat) (dup retain : Bool) (id : Nat) (topic payload : Str)
+    (msgExpiry : Nat) (alias : Option Nat)
+    (h : (processPublish s i qos dup retain id topic payload msgExpiry alias).2.2 = some 0x93) :
+    (getObj s i).recvQuota = 0 := by
+  false_or_by_contra
+  rename_i hrq
+  revert h
+  show fc11Not93 _
+  unfold processPublish
+  extract_lets +onlyGivenNames c
+  have early : ∀ code, code ≠ 0x93 → fc11Not93
+      (if (qos == 0) = true then ((s, [], none) : HRes)
+        else if (c.ver != 5) = true then
+          match disconnectClient s i code with
+          | (s, o) => (s, o, some code)
+        else ackRes s i (if (qos == 2) = true then 5 else 4) id code) := by
+    intro code hc
+    refine fc11_ite_code (fun _ => ?_) (fun _ => fc11_ite_code (fun _ => ?_) (fun _ => fc11_ackRes_code _ _ _ _ _))
+    · intro e; cases e
+    · intro e
+      apply hc
+      exact Option.some.inj e
+  refine fc11_ite_code (fun _ => early _ (by decide)) (fun _ => ?_)
+  refine fc11_ite_code (fun h0 => ?_) (fun _ => ?_)
+  · exact absurd (by simpa using h0) hrq
+  refine fc11_ite_code (fun _ => early _ (by decide)) (fun _ => ?_)
+  extract_lets +onlyGivenNames e pk pre
+  have hpre : ∀ r, pre = some r → fc11Not93 r := by
+    intro r h
+    simp only [pre] at h
+    split at h
+    · cases h
+    · split at h
+      · split at h
+        · cases h; exact fc11_ackRes_code _ _ _ _ _
+        · cases h
+      · cases h
+  generalize pre = pre' at hpre
+  split
+  · rename_i r
+    exact hpre r rfl
+  · split
+    rename_i s1 c1 heq
+    split
+    rename_i c2 pk2 heq2
+    extract_lets +onlyGivenNames s2
+    refine fc11_ite_code (fun _ => ?_) (fun _ => ?_)
+    · intro e; cases e
+    extract_lets +onlyGivenNames pk3 mode
+    refine fc11_ite_code (fun _ => ?_) (fun _ => fc11_ite_code (fun _ => fc11_ackRes_code _ _ _ _ _) (fun _ => ?_))
+    · intro e; cases e
+    extract_lets +onlyGivenNames pk4 s3
+    refine fc11_ite_code (fun _ => ?_) (fun _ => ?_)
+    · intro e; cases e
+    extract_lets +onlyGivenNames s4 ackT ackRC ack
+    split
+    rename_i c5 isNew heq5
+    extract_lets +onlyGivenNames s5 src s6
+    refine fc11_ite_code (fun _ => ?_) (fun _ => ?_)
+    · intro e; cases e
+    · intro e; cases e
+
+/-- **C11, 0x93 only at the limit**: on the class of `C11_recv_quota_accounting_partial`, if handling a PUBLISH for a
+    registered client ends with reason code 0x93 (the code `receivePacket` then sends in the DISCONNECT), the client's
+    receive quota is 0 and it really has `maxRecv` inbound exchanges open — the model counterpart of the harness's
+    inbound oracle. -/
+theorem C11_0x93_only_at_limit_partial (caps : Caps) (ops : List Op) (h : fc11OpsOK fc11RecvP (init caps) ops)
+    (cid : Str) (i : Nat) (hreg : (cid, i) ∈ (run (init caps) ops).clients)
+    (qos : Nat) (dup retain : Bool) (id : Nat) (topic payload : Str) (msgExpiry : Nat) (alias : Option Nat)
+    (h93 : (processPublish (run (init caps) ops) i qos dup retain id topic payload msgExpiry alias).2.2 = some 0x93) :
+    (getObj (run (init caps) ops) i).recvQuota = 0 ∧
+    inboundOpen (getObj (run (init caps) ops) i) = (getObj (run (init caps) ops) i).maxRecv := by
+  have h0 := fc11_processPublish_0x93 _ _ _ _ _ _ _ _ _ _ h93
+  have hacc := C11_recv_quota_accounting_partial caps ops h cid i hreg
+  rw [h0] at hacc
+  exact ⟨h0, by simpa using hacc⟩
 
 end Mochi.Broker
